@@ -67,6 +67,8 @@ def _classify_exc(e):
         return "oob_read" if "Guard" in str(e) else "extend_none"
     if isinstance(e, IndexError):
         return "val_index"
+    if isinstance(e, ValueError):
+        return "bad_slice"
     return "other:%s:%s" % (type(e).__name__, e)
 
 
@@ -97,7 +99,11 @@ def do_seq(task):
         else:
             idx = 0
             for p in task["pages"]:
-                _call(view[idx:idx + p["num_rows"]], p, task["null"], task["max_defi"], 0)
+                # read_data_page_v2 / _v2_page_starts_row: an empty page is skipped, a page starting inside a row refused
+                if len(p["rep"]) and p["rep"][0] != 0:
+                    raise ValueError("does not start at a row boundary")
+                if len(p["rep"]):
+                    _call(view[idx:idx + p["num_rows"]], p, task["null"], task["max_defi"], 0)
                 idx += p["num_rows"]
             ret = idx
     except Exception as e:      # noqa
